@@ -47,11 +47,41 @@ TARGETS = [
           line_id="int", width="int", max_distance="num", line_proximity="f1", nearest_xs="i1",
           nearest_ys="i1", values="f1", distance_metric="int")),
     ("convolve2d", "xrspatial/convolution.py", "_convolve_2d_numpy", dict(data="f2", kernel="f2")),
+    # the jitted closure of proximity._process; its free variables are declared after the parameters
+    ("processNumpy", "xrspatial/proximity.py", "_process._process_numpy",
+     dict(img="f2", x_coords="f2", y_coords="f2", target_values="f1", max_distance="num", distance_metric="int",
+          process_mode="int")),
+    ("calcDirection", "xrspatial/proximity.py", "_calc_direction", dict(x1="num", x2="num", y1="num", y2="num")),
+    # the red-black status tree of viewshed.py: tree_vals is (n, 8) numeric, tree_nodes is (n, 4) integer; the
+    # NIL node is index -1 = the last row (numba's negative index wraps; ILang's normIdx models it)
+    ("meanNumpy", "xrspatial/focal.py", "_mean_numpy", dict(data="f2", excludes="f1")),
+    ("applyMean", "xrspatial/focal.py", "_apply_numpy", dict(data="f2", kernel="f2", func="fn:_calc_mean")),
+    ("applySum", "xrspatial/focal.py", "_apply_numpy", dict(data="f2", kernel="f2", func="fn:_calc_sum")),
+    ("applyMin", "xrspatial/focal.py", "_apply_numpy", dict(data="f2", kernel="f2", func="fn:_calc_min")),
+    ("applyMax", "xrspatial/focal.py", "_apply_numpy", dict(data="f2", kernel="f2", func="fn:_calc_max")),
+    ("applyRange", "xrspatial/focal.py", "_apply_numpy", dict(data="f2", kernel="f2", func="fn:_calc_range")),
+    ("applyStd", "xrspatial/focal.py", "_apply_numpy", dict(data="f2", kernel="f2", func="fn:_calc_std")),
+    ("applyVar", "xrspatial/focal.py", "_apply_numpy", dict(data="f2", kernel="f2", func="fn:_calc_var")),
+    ("areaConnectivity", "xrspatial/zonal.py", "_area_connectivity", dict(data="f2", n="int")),
+    ("vsFindValueMin", "xrspatial/viewshed.py", "_find_value_min_value", dict(tree_vals="f2", node_id="int")),
+    ("vsTreeMinimum", "xrspatial/viewshed.py", "_tree_minimum", dict(tree_nodes="i2", x="int")),
+    ("vsTreeSuccessor", "xrspatial/viewshed.py", "_tree_successor", dict(tree_nodes="i2", x="int")),
+    ("vsLeftRotate", "xrspatial/viewshed.py", "_left_rotate", dict(tree_vals="f2", tree_nodes="i2", root="int", x="int")),
+    ("vsRightRotate", "xrspatial/viewshed.py", "_right_rotate", dict(tree_vals="f2", tree_nodes="i2", root="int", y="int")),
+    ("vsInsert", "xrspatial/viewshed.py", "_insert_into_tree",
+     dict(tree_vals="f2", tree_nodes="i2", root="int", node_id="int", value="f1")),
+    ("vsSearch", "xrspatial/viewshed.py", "_search_for_node", dict(tree_vals="f2", tree_nodes="i2", root="int", key="num")),
+    ("vsQuery", "xrspatial/viewshed.py", "_max_grad_in_status_struct",
+     dict(tree_vals="f2", tree_nodes="i2", root="int", distance="num", angle="num", gradient="num")),
+    ("vsDelete", "xrspatial/viewshed.py", "_delete_from_tree", dict(tree_vals="f2", tree_nodes="i2", root="int", key="num")),
 ]
 
 # functions that stay calls: name -> (number of numeric args, number of trailing integer args)
 EXTERNAL = {"_distance": (4, 1)}     # proximity._distance(x1, x2, y1, y2, metric)
 EXTERNAL_IN = {"xrspatial/proximity.py"}
+# NaN-ignoring whole-array reductions
+RED = {"np.nansum": "nansum", "np.nanmean": "nanmean", "np.nanmin": "nanmin", "np.nanmax": "nanmax",
+       "np.nanvar": "nanvar", "np.nanstd": "nanstd"}
 
 ARR = {"f1": ("F", 1), "f2": ("F", 2), "i1": ("I", 1), "i2": ("I", 2)}
 
@@ -95,11 +125,26 @@ class Module:
         self.tree = ast.parse(open(os.path.join(repo, rel)).read())
         self.funcs = {n.name: n for n in self.tree.body if isinstance(n, ast.FunctionDef)}
         self.consts = {}
+        self.fconsts = {}
         for n in self.tree.body:
             if isinstance(n, ast.Assign) and len(n.targets) == 1 and isinstance(n.targets[0], ast.Name):
                 v = const_int(n.value)
                 if v is not None:
                     self.consts[n.targets[0].id] = v
+                else:
+                    fv = const_float(n.value)
+                    if fv is not None:
+                        self.fconsts[n.targets[0].id] = fv
+
+    def find(self, path):
+        """`outer.inner`: a function defined inside another one"""
+        parts = path.split(".")
+        f = self.funcs.get(parts[0])
+        for part in parts[1:]:
+            if f is None:
+                return None
+            f = next((n for n in ast.walk(f) if isinstance(n, ast.FunctionDef) and n.name == part and n is not f), None)
+        return f
 
     def jitted(self, name):
         f = self.funcs.get(name)
@@ -121,6 +166,15 @@ def const_int(n):
     return None
 
 
+def const_float(n):
+    if isinstance(n, ast.Constant) and isinstance(n.value, float):
+        return n.value
+    if isinstance(n, ast.UnaryOp) and isinstance(n.op, ast.USub):
+        v = const_float(n.operand)
+        return None if v is None else -v
+    return None
+
+
 def body_of(f):
     b = list(f.body)
     if b and isinstance(b[0], ast.Expr) and isinstance(b[0].value, ast.Constant) and isinstance(b[0].value.value, str):
@@ -138,6 +192,7 @@ class Fn:
         self.amap = dict(amap or {})            # array parameter -> name in the outermost program
         self.types = dict(ptypes)                # local name -> sort
         self.ret_types = None
+        self.optional = set()                    # locals that are also bound to None: a flag `<name>$some` goes with them
         self.report = report if report is not None else dict(casts=[], inlined=[])
         self.tmp = 0
         if depth > 4:
@@ -146,6 +201,14 @@ class Fn:
         for p in self.params:
             if p not in self.types:
                 raise Untranslatable(f"no sort declared for parameter {p}")
+        # names declared beyond the parameters are closure variables: they must be free in the function
+        bound = set(self.params)
+        for n in ast.walk(func):
+            if isinstance(n, ast.Name) and isinstance(n.ctx, ast.Store):
+                bound.add(n.id)
+        for p in self.types:
+            if p not in self.params and p in bound:
+                raise Untranslatable(f"declared closure variable {p} is bound inside the function")
         self.infer()
 
     # ---------------------------------------------------------------- names
@@ -154,6 +217,12 @@ class Fn:
 
     def arr(self, name):
         return self.amap.get(name, self.prefix + name)
+
+    def arr_name(self, name):
+        a = self.arr(name)
+        if isinstance(a, tuple):
+            raise Untranslatable("shape / whole-array use of the row view " + name)
+        return a
 
     # ---------------------------------------------------------------- sorts
     def infer(self):
@@ -181,7 +250,14 @@ class Fn:
                 if len(s.targets) != 1:
                     raise Untranslatable("chained assignment")
                 t = s.targets[0]
-                if isinstance(t, ast.Name):
+                if isinstance(t, ast.Name) and self.is_slice_view(s.value):
+                    self.views = getattr(self, "views", {})
+                    if t.id in self.views and src(self.views[t.id]) != src(s.value):
+                        raise Untranslatable("slice view bound twice: " + t.id)
+                    self.views[t.id] = s.value
+                elif isinstance(t, ast.Name) and isinstance(s.value, ast.Constant) and s.value.value is None:
+                    self.optional.add(t.id)
+                elif isinstance(t, ast.Name):
                     self.bind(t.id, self.sort(s.value, alloc_ok=True))
                 elif isinstance(t, ast.Tuple) and all(isinstance(e, ast.Name) for e in t.elts):
                     tys = self.sorts_of_tuple(s.value, len(t.elts))
@@ -231,23 +307,63 @@ class Fn:
     def callee(self, call, prefix=None):
         name = call.func.id
         f = self.mod.funcs[name]
-        if call.keywords:
-            raise Untranslatable("keyword arguments in a call of " + name)
         params = [a.arg for a in f.args.args]
-        if len(call.args) != len(params):
-            raise Untranslatable("arity of " + name)
+        args = self.call_args(call)
         ptypes, amap = {}, {}
-        for p, a in zip(params, call.args):
-            ty = self.sort(a)
+        for p, a in zip(params, args):
+            ty = self.sort_arg(a)
             if ty is None:
                 ty = "int"      # not settled yet (first inference rounds)
             ptypes[p] = ty
             if ty in ARR:
-                if not isinstance(a, ast.Name):
-                    raise Untranslatable("array argument that is not a name: " + src(a))
-                amap[p] = self.arr(a.id)
+                amap[p] = self.arr_arg(a, prefix or "")
         return Fn(self.mod, f, ptypes, prefix=prefix or (self.prefix + name + "$"), amap=amap,
                   depth=self.depth + 1, report=self.report)
+
+    def call_args(self, call):
+        """positional argument nodes of a call of a module function: keywords and defaults resolved"""
+        name = call.func.id
+        f = self.mod.funcs[name]
+        params = [a.arg for a in f.args.args]
+        defaults = dict(zip(params[len(params) - len(f.args.defaults):], f.args.defaults))
+        if f.args.vararg or f.args.kwarg or f.args.kwonlyargs:
+            raise Untranslatable("signature of " + name)
+        given = dict(zip(params, call.args))
+        if len(call.args) > len(params):
+            raise Untranslatable("arity of " + name)
+        for kw in call.keywords:
+            if kw.arg is None or kw.arg not in params or kw.arg in given:
+                raise Untranslatable("keyword argument of " + name)
+            given[kw.arg] = kw.value
+        out = []
+        for p in params:
+            if p in given:
+                out.append(given[p])
+            elif p in defaults:
+                d = defaults[p]
+                if not (isinstance(d, ast.Constant) or (isinstance(d, ast.Name) and (d.id in self.mod.consts or d.id in self.mod.fconsts))):
+                    raise Untranslatable("default value of " + p)
+                out.append(d)
+            else:
+                raise Untranslatable("arity of " + name)
+        return out
+
+    def sort_arg(self, a):
+        """sort of a call argument; `m[i]` of a 2-D array is a 1-D row view"""
+        if isinstance(a, ast.Subscript) and isinstance(a.value, ast.Name) and self.types.get(a.value.id) in ("f2", "i2") \
+                and not isinstance(a.slice, (ast.Tuple, ast.Slice)):
+            return "f1" if self.types[a.value.id] == "f2" else "i1"
+        return self.sort(a)
+
+    def arr_arg(self, a, prefix):
+        if isinstance(a, ast.Name):
+            return self.arr(a.id)
+        if isinstance(a, ast.Subscript) and isinstance(a.value, ast.Name):
+            base = self.arr(a.value.id)
+            if isinstance(base, tuple):
+                raise Untranslatable("row of a row view")
+            return ("row", base, prefix + "row$" + a.value.id, a.slice)
+        raise Untranslatable("array argument " + src(a))
 
     def sort(self, e, alloc_ok=False):
         """sort of an expression, None when it depends on a name without a sort yet"""
@@ -264,6 +380,8 @@ class Fn:
                 return self.types[e.id]
             if e.id in self.mod.consts:
                 return "int"
+            if e.id in self.mod.fconsts:
+                return "num"
             return None
         if isinstance(e, ast.Attribute):
             s = src(e)
@@ -292,8 +410,12 @@ class Fn:
                 return "num"
             return "int" if a == "int" and b == "int" else "num"
         if isinstance(e, (ast.Compare, ast.BoolOp)):
+            if alloc_ok and self.bare_arrays(e):
+                return "i1"
             return "bool"
         if isinstance(e, ast.Subscript):
+            if alloc_ok and self.is_where0(e):
+                return "i1"
             base = e.value
             if isinstance(base, ast.Attribute) and base.attr == "shape":
                 return "int"
@@ -319,13 +441,18 @@ class Fn:
                 return self.sort(e.args[0])
             if fn in ("np.isnan", "np.isfinite", "np.isinf"):
                 return "bool"
-            if fn in ("np.sqrt", "sqrt", "math.sqrt", "np.float32", "np.float64", "float"):
+            if fn in ("np.sqrt", "sqrt", "math.sqrt", "np.float32", "np.float64", "float", "np.arctan2", "np.arctan",
+                      "np.sin", "np.cos", "np.exp", "np.arcsin"):
                 return "num"
             if fn in ("np.sum",) and len(e.args) == 1 and isinstance(e.args[0], ast.Name) \
                     and self.types.get(e.args[0].id) in ("i1", "i2"):
                 return "int"
             if fn in ("int", "np.int64", "np.int32") and len(e.args) == 1 and self.sort(e.args[0]) in ("int", "bool"):
                 return "int"
+            if fn == "int" and len(e.args) == 1 and self.int_quotient(e.args[0]):
+                return "int"
+            if fn in RED and len(e.args) == 1 and not e.keywords:
+                return "num"
             if alloc_ok:
                 ty = self.alloc_sort(e)
                 if ty:
@@ -345,6 +472,16 @@ class Fn:
         if isinstance(e, ast.IfExp):
             return join(self.sort(e.body), self.sort(e.orelse))
         raise Untranslatable("expression " + src(e))
+
+    def is_slice_view(self, a):
+        return (isinstance(a, ast.Subscript) and isinstance(a.value, ast.Name) and self.types.get(a.value.id) == "f2"
+                and isinstance(a.slice, ast.Tuple) and len(a.slice.elts) == 2
+                and all(isinstance(x, ast.Slice) for x in a.slice.elts))
+
+    def int_quotient(self, e):
+        """`a / b` with integer operands (so that `int(a / b)` is the truncated quotient)"""
+        return (isinstance(e, ast.BinOp) and isinstance(e.op, ast.Div)
+                and self.sort(e.left) == "int" and self.sort(e.right) == "int")
 
     def dtype_kind(self, call):
         for kw in call.keywords:
@@ -368,7 +505,41 @@ class Fn:
             return list(a.elts)
         return [a]
 
+    def bare_arrays(self, e):
+        """1-D arrays used as whole values (not subscripted) in an expression"""
+        out = []
+
+        def walk(n, sub=False):
+            if isinstance(n, ast.Subscript):
+                walk(n.slice)
+                if not isinstance(n.value, ast.Name):
+                    walk(n.value)
+                return
+            if isinstance(n, ast.Call):
+                for a in n.args:
+                    walk(a)
+                return
+            if isinstance(n, ast.Name) and self.types.get(n.id) in ("f1", "i1"):
+                out.append(n.id)
+            for c in ast.iter_child_nodes(n):
+                walk(c)
+        walk(e)
+        return out
+
+    def is_where0(self, e):
+        return (isinstance(e, ast.Subscript) and const_int(e.slice) == 0 and isinstance(e.value, ast.Call)
+                and src(e.value.func) == "np.where" and len(e.value.args) == 1 and isinstance(e.value.args[0], ast.Name)
+                and self.types.get(e.value.args[0].id) == "i1")
+
     def alloc_sort(self, e):
+        if self.is_where0(e):
+            return "i1"
+        if isinstance(e, (ast.Compare, ast.BoolOp)) and self.bare_arrays(e):
+            return "i1"
+        if isinstance(e, ast.BinOp) and self.bare_arrays(e):
+            return "f1"
+        if not isinstance(e, ast.Call):
+            return None
         fn = src(e.func)
         if fn in ("np.zeros", "np.ones", "np.empty", "np.full"):
             shape = e.args[0] if e.args else next((k.value for k in e.keywords if k.arg == "shape"), None)
@@ -403,6 +574,8 @@ class Fn:
 
     def ie(self, e):
         """integer expression (Lean text)"""
+        if isinstance(e, ast.Name) and e.id.startswith("$row:"):
+            return f"(.var {lstr(e.id[5:])})"
         t = self.need_sort(e)
         if t == "bool":
             raise Untranslatable("boolean used as an integer: " + src(e))
@@ -412,6 +585,8 @@ class Fn:
         if c is not None:
             return f"(.lit {lint(c)})"
         if isinstance(e, ast.Name):
+            if e.id.startswith("$row:"):
+                return f"(.var {lstr(e.id[5:])})"
             if e.id in self.types:
                 return f"(.var {lstr(self.v(e.id))})"
             return f"(.lit {lint(self.mod.consts[e.id])})"
@@ -439,7 +614,7 @@ class Fn:
                 k = const_int(e.slice)
                 if k is None or k < 0:
                     raise Untranslatable("shape index " + src(e))
-                return f"(.dim {lstr(self.arr(base.value.id))} {k})"
+                return f"(.dim {lstr(self.arr_name(base.value.id))} {k})"
             name, idx = self.subscript(e)
             if len(idx) == 1:
                 return f"(.ld1 {lstr(name)} {self.ie(idx[0])})"
@@ -447,14 +622,21 @@ class Fn:
         if isinstance(e, ast.Call):
             fn = src(e.func)
             if fn == "len" and isinstance(e.args[0], ast.Name) and self.types.get(e.args[0].id) in ARR:
-                return f"(.dim {lstr(self.arr(e.args[0].id))} 0)"
-            if fn in ("min", "max") and len(e.args) == 2:
-                return f"(.bin .{fn} {self.ie(e.args[0])} {self.ie(e.args[1])})"
+                return f"(.dim {lstr(self.arr_name(e.args[0].id))} 0)"
+            if fn in ("min", "max") and len(e.args) >= 2 and not e.keywords:
+                out = self.ie(e.args[0])
+                for a in e.args[1:]:
+                    out = f"(.bin .{fn} {out} {self.ie(a)})"
+                return out
+            if fn == "int" and self.int_quotient(e.args[0]):
+                # exact as long as the operands are far below 2^53 (the float quotient is then never rounded
+                # across an integer)
+                return f"(.bin .tdiv {self.ie(e.args[0].left)} {self.ie(e.args[0].right)})"
             if fn in ("int", "np.int64", "np.int32"):
                 return self.ie(e.args[0])
             if fn == "np.sum" and len(e.args) == 1 and isinstance(e.args[0], ast.Name) \
                     and self.types.get(e.args[0].id) in ("i1", "i2") and not e.keywords:
-                return f"(.sum {lstr(self.arr(e.args[0].id))})"
+                return f"(.sum {lstr(self.arr_name(e.args[0].id))})"
             if fn == "abs":
                 a = self.ie(e.args[0])
                 return f"(.bin .max {a} (.neg {a}))"
@@ -478,7 +660,11 @@ class Fn:
             raise Untranslatable("subscript of a non-array: " + src(e))
         if len(idxs) != ARR[t][1] or any(isinstance(i, ast.Slice) for i in idxs):
             raise Untranslatable("index shape " + src(e))
-        return self.arr(name), idxs
+        target = self.arr(name)
+        if isinstance(target, tuple):        # a row view `m[r]` of a 2-D array: v[k] is m[r, k]
+            _, base, rowvar, _ = target
+            return base, [ast.Name(id="$row:" + rowvar, ctx=ast.Load())] + idxs
+        return target, idxs
 
     def fe(self, e):
         """numeric expression (Lean text); integers are embedded with `.ofInt`"""
@@ -494,6 +680,8 @@ class Fn:
                 raise Untranslatable("literal " + src(e))
             return f"(.lit {lint(fr.numerator)} {fr.denominator})"
         if isinstance(e, ast.Name):
+            if e.id not in self.types and e.id in self.mod.fconsts:
+                return self.fe(ast.Constant(value=self.mod.fconsts[e.id]))
             return f"(.var {lstr(self.v(e.id))})"
         if isinstance(e, ast.Attribute):
             s = src(e)
@@ -526,13 +714,23 @@ class Fn:
             fn = src(e.func)
             if fn in ("np.sqrt", "sqrt", "math.sqrt"):
                 return f"(.un .sqrt {self.fe(e.args[0])})"
+            if fn in RED and len(e.args) == 1 and not e.keywords:
+                return f"(.red .{RED[fn]} {lstr(self.red_operand(e.args[0]))})"
             if fn in ("abs", "np.abs"):
                 return f"(.un .abs {self.fe(e.args[0])})"
+            if fn == "np.arctan2" and len(e.args) == 2:
+                return f"(.bin .atan2 {self.fe(e.args[0])} {self.fe(e.args[1])})"
+            if fn in ("np.arctan", "np.sin", "np.cos", "np.exp", "np.arcsin") and len(e.args) == 1:
+                op = {"np.arctan": "atan", "np.sin": "sin", "np.cos": "cos", "np.exp": "exp", "np.arcsin": "asin"}[fn]
+                return f"(.un .{op} {self.fe(e.args[0])})"
             if fn in ("np.float32", "np.float64", "float"):
                 self.report["casts"].append(src(e)[:60])
                 return self.fe(e.args[0])
-            if fn in ("min", "max") and len(e.args) == 2:
-                return f"(.bin .{fn} {self.fe(e.args[0])} {self.fe(e.args[1])})"
+            if fn in ("min", "max") and len(e.args) >= 2 and not e.keywords:
+                out = self.fe(e.args[0])
+                for a in e.args[1:]:
+                    out = f"(.bin .{fn} {out} {self.fe(a)})"
+                return out
             if isinstance(e.func, ast.Name) and e.func.id in EXTERNAL and self.mod.rel in EXTERNAL_IN:
                 nf, ni = EXTERNAL[e.func.id]
                 if len(e.args) != nf + ni or e.keywords:
@@ -587,7 +785,45 @@ class Fn:
             return f"(.cmpF .ne {self.fe(e)} (.lit 0 1))"
         raise Untranslatable("condition " + src(e))
 
+    def red_operand(self, a):
+        """the array a reduction runs over: a numeric array, or a 2-D slice `m[r0:r1, c0:c1]` (directly or through
+        a name bound to it), which is first copied into a scratch array"""
+        if isinstance(a, ast.Name) and a.id in getattr(self, "views", {}):
+            if getattr(self, "view_fresh", None) != a.id:
+                raise Untranslatable("slice view " + a.id + " used away from its binding")
+            a = self.views[a.id]
+        if isinstance(a, ast.Name) and self.types.get(a.id) in ("f1", "f2"):
+            return self.arr_name(a.id)
+        if isinstance(a, ast.Subscript) and isinstance(a.value, ast.Name) and self.types.get(a.value.id) == "f2" \
+                and isinstance(a.slice, ast.Tuple) and len(a.slice.elts) == 2 \
+                and all(isinstance(x, ast.Slice) and x.step is None and x.lower is not None and x.upper is not None
+                        for x in a.slice.elts):
+            base = self.arr_name(a.value.id)
+            self.tmp += 1
+            t = self.v(f"slice{self.tmp}$")
+            (r, c) = a.slice.elts
+            r0, r1, c0, c1 = self.ie(r.lower), self.ie(r.upper), self.ie(c.lower), self.ie(c.upper)
+            # numpy clamps slice bounds to the array; the targets only use bounds that are already clamped, which
+            # the bounds check of the copy loop enforces (an out-of-range bound stops the program)
+            self.pre.append(f"(.setI {lstr(t + 'r0')} {r0})")
+            self.pre.append(f"(.setI {lstr(t + 'c0')} {c0})")
+            self.pre.append(f"(.allocF {lstr(t + 'a')} [(.bin .max (.bin .sub {r1} (.var {lstr(t + 'r0')})) (.lit 0)), "
+                            f"(.bin .max (.bin .sub {c1} (.var {lstr(t + 'c0')})) (.lit 0))] .nan)")
+            self.pre.append(
+                f"(.forRange {lstr(t + 'i')} (.lit 0) (.dim {lstr(t + 'a')} 0) (.lit 1)\n"
+                f"  (.forRange {lstr(t + 'j')} (.lit 0) (.dim {lstr(t + 'a')} 1) (.lit 1)\n"
+                f"    (.stF2 {lstr(t + 'a')} (.var {lstr(t + 'i')}) (.var {lstr(t + 'j')}) "
+                f"(.ld2 {lstr(base)} (.bin .add (.var {lstr(t + 'r0')}) (.var {lstr(t + 'i')})) "
+                f"(.bin .add (.var {lstr(t + 'c0')}) (.var {lstr(t + 'j')}))))))")
+            return t + "a"
+        raise Untranslatable("reduction over " + src(a))
+
     def compare(self, a, op, b):
+        if isinstance(op, (ast.Is, ast.IsNot)):
+            if isinstance(a, ast.Name) and a.id in self.optional and isinstance(b, ast.Constant) and b.value is None:
+                some = f"(.var {lstr(self.v(a.id + '$some'))})"
+                return some if isinstance(op, ast.IsNot) else f"(.not {some})"
+            raise Untranslatable("identity test " + src(a) + " " + src(b))
         if type(op) not in self.CMP:
             raise Untranslatable("comparison " + src(op))
         o = self.CMP[type(op)]
@@ -613,9 +849,12 @@ class Fn:
         name = call.func.id
         sub = self.callee(call, prefix=f"{self.prefix}{name}{Fn.counter[0]}$")
         stmts = []
-        for p, a in zip(sub.params, call.args):
+        for p, a in zip(sub.params, self.call_args(call)):
             ty = sub.types[p]
             if ty in ARR:
+                view = sub.amap.get(p)
+                if isinstance(view, tuple):
+                    stmts.append(f"(.setI {lstr(view[2])} {self.ie(view[3])})")
                 continue
             stmts.append(self.assign_text(sub.v(p), ty, a))
         body = sub.block(body_of(sub.func))
@@ -642,8 +881,17 @@ class Fn:
     # ---------------------------------------------------------------- statements
     def block(self, stmts):
         out = []
+        saved = getattr(self, "view_fresh", None)
+        self.view_fresh = None
         for s in stmts:
             out.extend(self.stmt(s))
+            # a slice view may only be used by the statement that directly follows its binding
+            if isinstance(s, ast.Assign) and len(s.targets) == 1 and isinstance(s.targets[0], ast.Name) \
+                    and s.targets[0].id in getattr(self, "views", {}):
+                self.view_fresh = s.targets[0].id
+            else:
+                self.view_fresh = None
+        self.view_fresh = saved
         return seq(out)
 
     def with_pre(self, fn):
@@ -671,7 +919,15 @@ class Fn:
             if s.orelse:
                 raise Untranslatable("while-else")
             if contains_user_call(s.test, self.mod):
-                raise Untranslatable("call in a while condition: " + src(s.test))
+                # `while A1 and A2 ...: body` with calls in the conjuncts is `while True:` + one
+                # `if not Ai: break` per conjunct, each preceded by its own (hoisted) callee bodies --
+                # the same evaluation order and short-circuiting as the source
+                conj = s.test.values if isinstance(s.test, ast.BoolOp) and isinstance(s.test.op, ast.And) else [s.test]
+                parts = []
+                for c in conj:
+                    parts += self.with_pre(lambda c=c: [f"(.ite {self.be(c)}\n  .skip\n  .brk)"])
+                body = seq(parts + [self.block(s.body)])
+                return [f"(.while .tt\n{ind(body)})"]
             self.pre = []
             return [f"(.while {self.be(s.test)}\n{ind(self.block(s.body))})"]
         if isinstance(s, ast.For):
@@ -690,9 +946,21 @@ class Fn:
                     self.inline_value(s.value)
                     return []
                 return self.with_pre(go)
+            if isinstance(s.value, ast.Call) and isinstance(s.value.func, ast.Attribute) and s.value.func.attr == "fill" \
+                    and isinstance(s.value.func.value, ast.Name) and self.types.get(s.value.func.value.id) in ARR \
+                    and len(s.value.args) == 1:
+                fill = ast.Assign(targets=[ast.Subscript(value=s.value.func.value, slice=ast.Slice(lower=None, upper=None, step=None),
+                                                         ctx=ast.Store())], value=s.value.args[0])
+                return self.with_pre(lambda: self.assign(fill))
+            if isinstance(s.value, ast.Call) and src(s.value.func) == "print":
+                self.report.setdefault("dropped", []).append("print")
+                return []
             raise Untranslatable("expression statement " + src(s))
         if isinstance(s, ast.Pass):
             return []
+        if isinstance(s, ast.Raise):
+            what = src(s.exc.func) if isinstance(s.exc, ast.Call) else src(s.exc) if s.exc else "raise"
+            return [f"(.fail {lstr(what)})"]
         raise Untranslatable("statement " + src(s).splitlines()[0])
 
     def ret(self, s):
@@ -712,7 +980,9 @@ class Fn:
                 if not isinstance(v, ast.Name):
                     raise Untranslatable("returned array expression " + src(v))
                 self.ret_arrays = getattr(self, "ret_arrays", {})
-                self.ret_arrays[k] = self.arr(v.id)
+                self.ret_arrays.setdefault(k, [])
+                if self.arr_name(v.id) not in self.ret_arrays[k]:
+                    self.ret_arrays[k].append(self.arr_name(v.id))
                 continue
             # a variable declared numeric by another return keeps that sort
             rty = self.ret_types[k]
@@ -738,17 +1008,17 @@ class Fn:
                 raise Untranslatable("range arity")
             return [f"(.forRange {lstr(self.v(s.target.id))} {lo} {hi} {st}\n{ind(self.block(s.body))})"]
         if isinstance(it, ast.Name) and self.types.get(it.id) == "f1" and isinstance(s.target, ast.Name):
-            return [f"(.forIn {lstr(self.v(s.target.id))} {lstr(self.arr(it.id))}\n{ind(self.block(s.body))})"]
+            return [f"(.forIn {lstr(self.v(s.target.id))} {lstr(self.arr_name(it.id))}\n{ind(self.block(s.body))})"]
         if isinstance(it, ast.Call) and src(it.func) == "zip" and isinstance(s.target, ast.Tuple) \
                 and len(it.args) == len(s.target.elts) >= 1 \
                 and all(isinstance(x, ast.Name) and self.types.get(x.id) == "i1" for x in it.args) \
                 and all(isinstance(x, ast.Name) for x in s.target.elts):
             self.tmp += 1
             k = self.v(f"zip{self.tmp}$k")
-            n = f"(.dim {lstr(self.arr(it.args[0].id))} 0)"
+            n = f"(.dim {lstr(self.arr_name(it.args[0].id))} 0)"
             for x in it.args[1:]:
-                n = f"(.bin .min {n} (.dim {lstr(self.arr(x.id))} 0))"
-            binds = [f"(.setI {lstr(self.v(t.id))} (.ld1 {lstr(self.arr(x.id))} (.var {lstr(k)})))"
+                n = f"(.bin .min {n} (.dim {lstr(self.arr_name(x.id))} 0))"
+            binds = [f"(.setI {lstr(self.v(t.id))} (.ld1 {lstr(self.arr_name(x.id))} (.var {lstr(k)})))"
                      for t, x in zip(s.target.elts, it.args)]
             body = seq(binds + [self.block(s.body)])
             return [f"(.forRange {lstr(k)} (.lit 0) {n} (.lit 1)\n{ind(body)})"]
@@ -762,7 +1032,7 @@ class Fn:
             if not all(isinstance(e, ast.Name) for e in t.elts):
                 raise Untranslatable("tuple target " + src(t))
             if isinstance(value, ast.Attribute) and value.attr == "shape" and isinstance(value.value, ast.Name):
-                return [f"(.setI {lstr(self.v(e.id))} (.dim {lstr(self.arr(value.value.id))} {k}))"
+                return [f"(.setI {lstr(self.v(e.id))} (.dim {lstr(self.arr_name(value.value.id))} {k}))"
                         for k, e in enumerate(t.elts)]
             if isinstance(value, ast.Call) and isinstance(value.func, ast.Name) and self.mod.jitted(value.func.id):
                 vals = self.inline_value(value)
@@ -787,13 +1057,22 @@ class Fn:
                     raise Untranslatable("simultaneous assignment " + src(s))
                 return [self.assign_text(self.v(e.id), self.types[e.id], v) for e, v in zip(t.elts, value.elts)]
             raise Untranslatable("tuple assignment " + src(s))
+        if isinstance(t, ast.Name) and t.id in getattr(self, "views", {}):
+            # a slice view is only a name for the slice: the reduction that uses it copies the cells; that is the
+            # same thing because the only permitted use is in the statement that directly follows (see `block`)
+            return []
         if isinstance(t, ast.Name):
+            if isinstance(value, ast.Constant) and value.value is None and t.id in self.optional:
+                return [f"(.setB {lstr(self.v(t.id + '$some'))} .ff)"]
             ty = self.types.get(t.id)
             if ty in ARR:
                 return self.alloc(t.id, ty, value)
             if ty is None:
                 raise Untranslatable("no sort for " + t.id)
-            return [self.assign_text(self.v(t.id), ty, value)]
+            out = [self.assign_text(self.v(t.id), ty, value)]
+            if t.id in self.optional:
+                out.append(f"(.setB {lstr(self.v(t.id + '$some'))} .tt)")
+            return out
         if isinstance(t, ast.Subscript):
             # whole-array fill  a[:] = e
             if isinstance(t.value, ast.Name) and isinstance(t.slice, ast.Slice) and t.slice.lower is None \
@@ -801,7 +1080,7 @@ class Fn:
                 ty = self.types.get(t.value.id)
                 if ty not in ARR:
                     raise Untranslatable("fill of " + src(t))
-                nm = self.arr(t.value.id)
+                nm = self.arr_name(t.value.id)
                 dims = "[" + ", ".join(f"(.dim {lstr(nm)} {k})" for k in range(ARR[ty][1])) + "]"
                 if ARR[ty][0] == "F":
                     return [f"(.allocF {lstr(nm)} {dims} {self.fe(value)})"]
@@ -823,10 +1102,48 @@ class Fn:
 
     def alloc(self, name, ty, value):
         kind, nd = ARR[ty]
-        nm = self.arr(name)
+        nm = self.arr_name(name)
         factor = None
         if isinstance(value, ast.BinOp) and isinstance(value.op, ast.Mult):      # np.ones(...) * c
             value, factor = value.left, value.right
+        if self.is_where0(value):
+            # nm = np.where(mask)[0]: the positions of the non-zero entries of a 0/1 mask, in order
+            mask = self.arr_name(value.value.args[0].id)
+            self.tmp += 1
+            k, c = self.v(f"where{self.tmp}$k"), self.v(f"where{self.tmp}$n")
+            return [f"(.allocI {lstr(nm)} [(.sum {lstr(mask)})] (.lit 0))",
+                    f"(.setI {lstr(c)} (.lit 0))",
+                    f"(.forRange {lstr(k)} (.lit 0) (.dim {lstr(mask)} 0) (.lit 1)\n"
+                    f"  (.ite (.cmpI .ne (.ld1 {lstr(mask)} (.var {lstr(k)})) (.lit 0))\n"
+                    f"    (.seq (.stI1 {lstr(nm)} (.var {lstr(c)}) (.var {lstr(k)}))\n"
+                    f"    (.setI {lstr(c)} (.bin .add (.var {lstr(c)}) (.lit 1))))\n    .skip))"]
+        bare = self.bare_arrays(value) if not isinstance(value, ast.Call) else []
+        if bare:
+            # elementwise expression over 1-D arrays of one length (broadcast against scalars): an explicit loop
+            self.tmp += 1
+            k = f"elem{self.tmp}$k"
+            first = self.arr_name(bare[0])
+
+            class Sub(ast.NodeTransformer):
+                def visit_Subscript(self_, n):
+                    return n
+                def visit_Name(self_, n):
+                    if n.id in bare:
+                        return ast.Subscript(value=ast.Name(id=n.id, ctx=ast.Load()), slice=ast.Name(id="$row:" + self.v(k), ctx=ast.Load()), ctx=ast.Load())
+                    return n
+            import copy
+            elem = Sub().visit(copy.deepcopy(value))
+            same = [f"(.cmpI .eq (.dim {lstr(self.arr_name(b))} 0) (.dim {lstr(first)} 0))" for b in bare[1:]]
+            guard = []
+            for g in same:
+                guard.append(f"(.ite {g}\n  .skip\n  (.fail \"broadcast\"))")
+            if kind == "I":
+                body = f"(.ite {self.be(elem)}\n    (.stI1 {lstr(nm)} (.var {lstr(self.v(k))}) (.lit 1))\n    (.stI1 {lstr(nm)} (.var {lstr(self.v(k))}) (.lit 0)))"
+                al = f"(.allocI {lstr(nm)} [(.dim {lstr(first)} 0)] (.lit 0))"
+            else:
+                body = f"(.stF1 {lstr(nm)} (.var {lstr(self.v(k))}) {self.fe(elem)})"
+                al = f"(.allocF {lstr(nm)} [(.dim {lstr(first)} 0)] (.lit 0 1))"
+            return guard + [al, f"(.forRange {lstr(self.v(k))} (.lit 0) (.dim {lstr(first)} 0) (.lit 1)\n  {body})"]
         if isinstance(value, ast.Call) and isinstance(value.func, ast.Attribute) and value.func.attr == "astype" \
                 and isinstance(value.func.value, ast.Name) and value.func.value.id == name:
             self.report["casts"].append(src(value)[:60])
@@ -838,7 +1155,7 @@ class Fn:
             shape = value.args[0] if value.args else next(k.value for k in value.keywords if k.arg == "shape")
             dims = self.alloc_dims(shape)
             if isinstance(dims, tuple):
-                d = "[" + ", ".join(f"(.dim {lstr(self.arr(dims[1]))} {k})" for k in range(nd)) + "]"
+                d = "[" + ", ".join(f"(.dim {lstr(self.arr_name(dims[1]))} {k})" for k in range(nd)) + "]"
             else:
                 d = "[" + ", ".join(self.ie(x) for x in dims) + "]"
             base = {"np.zeros": 0, "np.ones": 1, "np.empty": 0}.get(fn)
@@ -852,7 +1169,7 @@ class Fn:
             else:
                 fill = f"(.lit {base} 1)" if kind == "F" else f"(.lit {base})"
         elif fn in ("np.zeros_like", "np.empty_like", "np.ones_like"):
-            other = self.arr(value.args[0].id)
+            other = self.arr_name(value.args[0].id)
             d = "[" + ", ".join(f"(.dim {lstr(other)} {k})" for k in range(nd)) + "]"
             base = 1 if fn == "np.ones_like" else 0
             fill = f"(.lit {base} 1)" if kind == "F" else f"(.lit {base})"
@@ -894,26 +1211,58 @@ TY_LEAN = {"int": ".int", "num": ".num", "bool": ".bool", "f1": "(.arrF 1)", "f2
            "i1": "(.arrI 1)", "i2": "(.arrI 2)"}
 
 
+def bind_functions(func, fbinds):
+    """a copy of `func` in which the function-valued parameters are replaced by the module functions they are
+    bound to (`func(kernel_values)` -> `_calc_mean(kernel_values)`) and dropped from the signature"""
+    import copy
+    f = copy.deepcopy(func)
+
+    class T(ast.NodeTransformer):
+        def visit_Call(self, n):
+            self.generic_visit(n)
+            if isinstance(n.func, ast.Name) and n.func.id in fbinds:
+                n.func = ast.Name(id=fbinds[n.func.id], ctx=ast.Load())
+            return n
+    T().visit(f)
+    for n in ast.walk(f):
+        if isinstance(n, ast.Name) and n.id in fbinds:
+            raise Untranslatable("function-valued parameter used other than in a call: " + n.id)
+    f.args.args = [a for a in f.args.args if a.arg not in fbinds]
+    return f
+
+
 def translate(mods, repo, lean_name, rel, fname, ptypes):
     rep = dict(ok=False, qual=f"{rel}:{fname}")
+    Fn.counter[0] = 0          # inlined callees are numbered per program
     try:
         if rel not in mods:
             mods[rel] = Module(repo, rel)
         mod = mods[rel]
-        func = mod.funcs.get(fname)
+        func = mod.find(fname)
         if func is None:
             raise Untranslatable("function not found")
-        if [a.arg for a in func.args.args] != list(ptypes):
-            raise Untranslatable(f"parameters are {[a.arg for a in func.args.args]}, declared {list(ptypes)}")
+        real_params = [a.arg for a in func.args.args]
+        if real_params != list(ptypes)[:len(real_params)]:
+            raise Untranslatable(f"parameters are {real_params}, declared {list(ptypes)}")
+        fbinds = {k: v[3:] for k, v in ptypes.items() if str(v).startswith("fn:")}
+        if fbinds:
+            for k, target in fbinds.items():
+                if not mod.jitted(target):
+                    raise Untranslatable(f"{k} is bound to {target}, which is not a jitted function of the module")
+            func = bind_functions(func, fbinds)
+            ptypes = {k: v for k, v in ptypes.items() if k not in fbinds}
         fn = Fn(mod, func, ptypes)
         body = fn.block(body_of(func))
         rets = []
         for k, ty in enumerate(fn.ret_types or []):
             if ty in ARR:
-                rets.append((fn.ret_arrays[k], ty))
+                # different `return` statements may return different arrays: all of them are results
+                for nm in fn.ret_arrays[k]:
+                    rets.append((nm, ty))
             else:
                 rets.append((f"ret{k}", ty))
         params = ", ".join(f"({lstr(p)}, {TY_LEAN[t]})" for p, t in ptypes.items())
+        rep["fbinds"] = fbinds
         retl = ", ".join(f"({lstr(n)}, {TY_LEAN[t]})" for n, t in rets)
         text = (f"/-- `{fname}` ({rel}:{func.lineno}) -/\n"
                 f"def {lean_name} : Prog :=\n  {{ name := {lstr(fname)}\n    params := [{params}]\n"
